@@ -18,7 +18,8 @@ open OllamaVerif.KV OllamaVerif.Causal OllamaVerif.Generated.C06
 
 def variant : Variant :=
   { fixDefrag := variantBits % 2 = 1, fixResume := (variantBits / 2) % 2 = 1,
-    fixDiv := (variantBits / 4) % 2 = 1, perSeqBatch := (variantBits / 8) % 2 = 1 }
+    fixDiv := (variantBits / 4) % 2 = 1, perSeqBatch := (variantBits / 8) % 2 = 1,
+    atomicRemove := (variantBits / 16) % 2 = 1 }
 
 def win (w : Nat) : Option Int := if w = 0 then none else some (w : Int)
 
@@ -43,7 +44,7 @@ theorem evict_table :
 /-- outcome code of `Remove` on a one-cell cache -/
 def rmOutcome (b e cp : Int) (shared : Bool) : Nat × Int :=
   let e' := if e = -1 then maxInt32 else e
-  let r := Causal.remove (mk none [⟨cp, if shared then [0, 1] else [0]⟩]) 0 b e'
+  let r := Causal.removeV (mk none [⟨cp, if shared then [0, 1] else [0]⟩]) 0 b e'
   let cell := r.1.cells.getD 0 Cell.empty
   if r.2 = .shared then (2, cell.pos)
   else if 0 ∉ cell.seqs then (1, cell.pos)
